@@ -3,7 +3,7 @@ use crate::util::{dec, fld};
 use crate::R;
 use pdf::crypt::{CryptDict, CryptMethod, Decoder, Rc4};
 use pdf::error::PdfError;
-use pdf::file::{NoCache, NoLog, Storage};
+use pdf::file::{File, FileOptions, NoCache, NoLog, Storage};
 use pdf::object::{NoResolve, Object, ParseOptions, PlainRef, Resolve, Stream};
 use pdf::primitive::{Dictionary, Name, PdfString, Primitive};
 
@@ -111,6 +111,31 @@ fn walk(p: &Primitive, r: &impl Resolve, out: &mut Vec<Vec<u8>>) {
     }
 }
 
+/// what a user reads from a document opened through `FileOptions::…::load`: the page count, the typed /Info /Title
+/// (`T+<bytes>` | `T-`), then the leaves of the listed objects (as `crypt_doc`)
+fn read_opened<B, OC, SC, L>(file: &File<B, OC, SC, L>, ids: &[u8]) -> Vec<Vec<u8>>
+where B: pdf::backend::Backend,
+      OC: pdf::file::Cache<Result<pdf::any::AnySync, std::sync::Arc<PdfError>>>,
+      SC: pdf::file::Cache<Result<std::sync::Arc<[u8]>, std::sync::Arc<PdfError>>>,
+      L: pdf::file::Log,
+{
+    let mut out = vec![format!("{}", file.num_pages()).into_bytes()];
+    let mut t = vec![b'T'];
+    match file.trailer.info_dict.as_ref().and_then(|i| i.title.as_ref()) {
+        Some(s) => { t.push(b'+'); t.extend_from_slice(s.as_bytes()); }
+        None => t.push(b'-'),
+    }
+    out.push(t);
+    let r = file.resolver();
+    for id in std::str::from_utf8(ids).unwrap_or("").split(',').filter_map(|x| x.parse::<u64>().ok()) {
+        match r.resolve(PlainRef { id, gen: 0 }) {
+            Ok(p) => walk(&p, &r, &mut out),
+            Err(e) => { let mut o = vec![b'O']; o.append(&mut item(Err(e))); out.push(o); }
+        }
+    }
+    out
+}
+
 pub fn dispatch(mode: &str, f: &[Vec<u8>]) -> Option<R> {
     Some(match mode {
         // key data -> Rc4::encrypt
@@ -158,6 +183,20 @@ pub fn dispatch(mode: &str, f: &[Vec<u8>]) -> Option<R> {
                 out.push(o);
             }
             Ok(out)
+        }
+        // <c|u> <"0" | "1"password> ids(comma separated) file  ->  the document opened the way a user opens it:
+        // FileOptions::cached() / ::uncached() [.password(pw)] .load(bytes); error kind of File::load, else what read_opened reads
+        "crypt_open_file" => {
+            let pw = opt(fld(f, 1));
+            if fld(f, 0).first() == Some(&b'c') {
+                let o = FileOptions::cached();
+                let o = match pw { Some(p) => o.password(p), None => o };
+                match o.load(f[3].clone()) { Ok(file) => Ok(read_opened(&file, fld(f, 2))), Err(e) => Err(ekind(&e).into()) }
+            } else {
+                let o = FileOptions::uncached();
+                let o = match pw { Some(p) => o.password(p), None => o };
+                match o.load(f[3].clone()) { Ok(file) => Ok(read_opened(&file, fld(f, 2))), Err(e) => Err(ekind(&e).into()) }
+            }
         }
         _ => return None,
     })
